@@ -40,8 +40,8 @@ Proof.
   - (* materialise *) unfold materialise, Coh in *. destruct (sp s) eqn:E; [rewrite E; exact C|cbn; right; reflexivity].
   - (* port *) apply (host_ops_query s); [| |exact C]; unfold set_port; destruct (zs_eqb (scheme s) s_file); try reflexivity;
       destruct a; try reflexivity; destruct (is_default_port _ _); reflexivity.
-  - (* protocol *) apply (host_ops_query s); [| |exact C]; unfold set_protocol; destruct (_ && _); try reflexivity;
-      destruct (fix_host _ _ _); reflexivity.
+  - (* protocol *) apply (host_ops_query s); [| |exact C]; unfold set_protocol; destruct (negb (valid_scheme p)); try reflexivity;
+      destruct (_ && _); try reflexivity; destruct (fix_host _ _ _); reflexivity.
   - (* host *) apply (host_ops_query s); [| |exact C]; unfold set_host; destruct (host_ok _ _); try reflexivity;
       destruct (fix_host _ _ _); reflexivity.
   - (* hostname *) apply (host_ops_query s); [| |exact C]; unfold set_hostname; destruct (existsb _ _); try reflexivity;
@@ -215,18 +215,18 @@ Proof.
     + destruct W as [Wd Wg]. destruct (is_default_port (scheme s) (num_of d)) eqn:D.
       * change (host_inv (scheme s) (clear_port (host s))). apply clear_port_inv; exact Ip.
       * change (host_inv (scheme s) (host_without_port (host s) ++ 58 :: d)). apply host_inv_with_port; assumption.
-  - (* protocol *) unfold set_protocol. destruct (_ && _); [|exact I].
+  - (* protocol *) unfold set_protocol. destruct (negb (valid_scheme p)); [exact I|]. destruct (_ && _); [|exact I].
     pose proof (drop_default_inv p (host s) (proj1 I)) as D.
-    destruct (fix_host lower norm_host p (drop_default_port p (host s))) as [h2|] eqn:F; cbn; [eapply fix_host_inv; eauto|exact D].
+    destruct (fix_host lower norm_host p (drop_default_port p (host s))) as [h2|] eqn:F; cbn; [eapply fix_host_inv; eauto|exact I].
   - (* host *) unfold set_host. destruct (host_ok (scheme s) v) eqn:K; [|exact I].
     pose proof (drop_default_inv (scheme s) v (host_ok_plain _ _ K)) as D.
-    destruct (fix_host lower norm_host (scheme s) (drop_default_port (scheme s) v)) as [h2|] eqn:F; cbn; [eapply fix_host_inv; eauto|exact D].
+    destruct (fix_host lower norm_host (scheme s) (drop_default_port (scheme s) v)) as [h2|] eqn:F; cbn; [eapply fix_host_inv; eauto|exact I].
   - (* hostname *) unfold set_hostname. destruct (existsb (Z.eqb 58) v) eqn:C; [exact I|].
     destruct (host_ok (scheme s) v) eqn:K; [|exact I]. pose proof (no_colon_plain v C) as Pv. destruct I as (Ip & Iq & Ind).
     assert (D : host_inv (scheme s) match port_of (host s) with [] => v | p => v ++ 58 :: p end).
     { destruct (port_of (host s)) as [|c p] eqn:E; [apply host_inv_plain; exact Pv|].
       apply host_inv_with_port; [exact Pv|discriminate|rewrite <- E; apply port_of_digits|unfold no_default in Ind; rewrite ?E in Ind; destruct Ind as [Ind|Ind]; [discriminate Ind|exact Ind]]. }
-    destruct (fix_host lower norm_host (scheme s) _) as [h2|] eqn:F; cbn; [eapply fix_host_inv; eauto|exact D].
+    destruct (fix_host lower norm_host (scheme s) _) as [h2|] eqn:F; cbn; [eapply fix_host_inv; eauto|split; [exact Ip|split; [exact Iq|exact Ind]]].
   - (* hash *) exact I.
   - (* pathname *) exact I.
   - (* username / password *) exact I.
@@ -319,3 +319,21 @@ Proof.
   - unfold get_search, sync, get_params, materialise. cbn. rewrite E. cbn. destruct q; repeat split; try reflexivity. all: symmetry; exact HP.
 Qed.
 Local Transparent serialize parse_raw.
+
+(* an assignment that throws stores nothing: host, hostname and protocol setters (a host that cannot be normalised - an invalid
+   punycode label - after it passed the syntactic check) and the href setter (an unparsable URL) leave the state as it was *)
+Theorem throwing_assignment_stores_nothing host_ok lower norm_host clean_path s v :
+  (snd (set_host host_ok lower norm_host clean_path s v) = true -> fst (set_host host_ok lower norm_host clean_path s v) = s) /\
+  (snd (set_hostname host_ok lower norm_host clean_path s v) = true -> fst (set_hostname host_ok lower norm_host clean_path s v) = s) /\
+  (snd (set_protocol host_ok lower norm_host clean_path s v) = true -> fst (set_protocol host_ok lower norm_host clean_path s v) = s).
+Proof.
+  unfold set_host, set_hostname, set_protocol. repeat split.
+  - destruct (host_ok (scheme s) v); [|discriminate]. destruct (fix_host _ _ _ _); [discriminate|reflexivity].
+  - destruct (existsb _ _); [discriminate|]. destruct (host_ok (scheme s) v); [|discriminate]. destruct (fix_host _ _ _ _); [discriminate|reflexivity].
+  - destruct (negb (valid_scheme v)); [discriminate|]. destruct (_ && _); [|discriminate]. destruct (fix_host _ _ _ _); [discriminate|reflexivity].
+Qed.
+
+(* the protocol setter never stores something that is not a scheme ('/', '', '1x', 'h ttp') *)
+Theorem protocol_needs_a_scheme host_ok lower norm_host clean_path s p :
+  valid_scheme p = false -> set_protocol host_ok lower norm_host clean_path s p = (s, false).
+Proof. intro H. unfold set_protocol. rewrite H. reflexivity. Qed.
